@@ -452,8 +452,13 @@ pub broadcast proof fn lemma_threads_gas_update_front_within(q: Seq<VMThread>, t
     requires threads_gas_within(q, limit, 1), t.gas() <= limit,
     ensures #[trigger] threads_gas_within(q.update(0, t), limit, 0),
 { reveal(threads_gas_within); }
+/// replacing the front of a queue does not change what is behind it
+pub broadcast proof fn lemma_update_front_skip(q: Seq<VMThread>, t: VMThread)
+    requires q.len() > 0,
+    ensures #[trigger] q.update(0, t).skip(1) == q.skip(1),
+{ assert(q.update(0, t).skip(1) =~= q.skip(1)); }
 pub broadcast group group_queue_lemmas {
-    lemma_threads_wf_front, lemma_threads_wf_update_front, lemma_threads_gas_front, lemma_threads_gas_update_front, lemma_threads_gas_update_front_within,
+    lemma_update_front_skip, lemma_threads_wf_front, lemma_threads_wf_update_front, lemma_threads_gas_front, lemma_threads_gas_update_front, lemma_threads_gas_update_front_within,
 }
 
 /// the thread `t` after one step: same state, same gas, same code, pointer moved on by exactly one
@@ -470,15 +475,15 @@ pub open spec fn thread_ends(vm: &VM) -> bool {
 /// the current thread of `pre` is retired in `post`: the queue loses exactly its front, exactly one state more is stored
 /// and it is that thread's state (C06: nothing is dropped)
 pub open spec fn retired(pre: &VM, post: &VM) -> bool {
-    &&& post.q() =~= pre.q().skip(1)
-    &&& post.stored() =~= pre.stored().push(pre.q()[0].st())
+    &&& post.q() == pre.q().skip(1)
+    &&& post.stored() == pre.stored().push(pre.q()[0].st())
 }
 /// the current thread of `pre` goes on in `post`: it is still the front, moved on by one instruction; nothing is stored
 pub open spec fn goes_on(pre: &VM, post: &VM) -> bool {
     &&& post.q().len() == pre.q().len()
     &&& stepped(pre.q()[0], post.q()[0])
     &&& forall|i: int| 1 <= i < pre.q().len() ==> post.q()[i] == pre.q()[i]
-    &&& post.stored() =~= pre.stored()
+    &&& post.stored() == pre.stored()
 }
 
 
@@ -674,7 +679,34 @@ pub open spec fn goes_on_with_gas(a: &VM, gas: int, post: &VM) -> bool {
     &&& post.q().len() == a.q().len()
     &&& post.q()[0].st() == a.q()[0].st() && post.q()[0].code() == a.q()[0].code() && post.q()[0].ip() == a.q()[0].ip() + 1 && post.q()[0].gas() == gas
     &&& forall|i: int| 1 <= i < a.q().len() ==> #[trigger] post.q()[i] == a.q()[i]
-    &&& post.stored() =~= a.stored()
+    &&& post.stored() == a.stored()
+}
+
+/// the VM `m` as the main loop hands it to `advance`, in terms of the VM `a` the opcode left behind: the current thread has
+/// consumed the opcode's gas (on Ok), the opcode's error is recorded (unless tolerated), the thread is killed on EVERY error;
+/// nothing else has changed
+pub open spec fn ready_to_advance(a: &VM, res: ExecuteResult, op: DynOpcode, m: &VM) -> bool {
+    &&& a.q().len() > 0 && m.q().len() == a.q().len()
+    &&& m.q()[0].st() == a.q()[0].st() && m.q()[0].et() == a.q()[0].et() && m.q()[0].gas() == gas_after(a, res, op)
+    &&& forall|i: int| 1 <= i < a.q().len() ==> #[trigger] m.q()[i] == a.q()[i]
+    &&& m.stored() == a.stored()
+    &&& m.log() == log_after_opcode_result(a, res)
+    &&& m.current_thread_killed == (a.current_thread_killed || res is Err)
+    &&& m.config == a.config && m.instructions_len == a.instructions_len
+}
+/// the four clauses of one iteration that speak about the VM after `advance` (see the loop invariant of `execute`)
+pub open spec fn iter_ends(a: &VM, res: ExecuteResult, op: DynOpcode, post: &VM) -> bool {
+    ends_now(a, res, op) ==> retired(a, post)
+}
+pub open spec fn iter_goes_on(a: &VM, res: ExecuteResult, op: DynOpcode, post: &VM) -> bool {
+    !ends_now(a, res, op) ==> goes_on_with_gas(a, gas_after(a, res, op), post)
+}
+pub open spec fn iter_records(a: &VM, res: ExecuteResult, op: DynOpcode, post: &VM) -> bool {
+    gas_after(a, res, op) <= a.config.gas_limit ==> post.log() == log_after_opcode_result(a, res)
+}
+pub open spec fn iter_records_gas_exhaustion(a: &VM, res: ExecuteResult, op: DynOpcode, post: &VM) -> bool {
+    gas_after(a, res, op) > a.config.gas_limit ==> post.log().to_multiset()
+        == log_after_opcode_result(a, res).to_multiset().insert(Located { location: a.q()[0].ip(), payload: Error::GasLimitExceeded })
 }
 
 //@extract file=src/vm/mod.rs path="impl VM" kind=header
@@ -786,25 +818,14 @@ match Err(Error::StoppedByWatchdog).locate($1) { Ok(()) => (), Err(e) => return 
                 counter > 0 ==> marks_current_instruction(&prev, &self.watchdog.before_op()),                           //@ob C03.loop.execute.iter.marks_the_instruction_visited_before_executing_it
                 counter > 0 ==> nothing_else_before_opcode(&prev, &self.watchdog.before_op()),                          //@ob C03.loop.execute.iter.nothing_else_happens_before_the_opcode
                 counter > 0 ==> self.watchdog.before_op().polls() == prev.polls() + (if (counter as int - 1) % (poll_interval as int) == 0 { 1nat } else { 0nat }),      //@ob C13.loop.execute.iter.polls_iff_counter_is_a_multiple_of_the_interval
-                // C08 / C03: the current thread ENDS - is retired, its state stored - for each of these reasons ...
-                counter > 0 && self.watchdog.op_result() is Err ==> retired(&self.watchdog.after_op(), self),                 //@ob C08.loop.execute.iter.failed_opcode_ends_the_thread_in_every_mode
-                counter > 0 && self.watchdog.after_op().current_thread_killed ==> retired(&self.watchdog.after_op(), self),    //@ob C08.loop.execute.iter.halting_opcode_ends_the_path
-                counter > 0 && (next_is_outside_code(&self.watchdog.after_op()) || next_is_at_visit_limit(&self.watchdog.after_op()))
-                    ==> retired(&self.watchdog.after_op(), self),                                                            //@ob C03.loop.execute.iter.thread_ends_at_the_end_of_the_code_or_the_visit_limit
-                counter > 0 && gas_after(&self.watchdog.after_op(), self.watchdog.op_result(), self.watchdog.last_op()) > self.config.gas_limit
-                    ==> retired(&self.watchdog.after_op(), self),                                                            //@ob C03.loop.execute.iter.thread_ends_when_out_of_gas_in_both_modes
-                // ... and for no other: otherwise it goes on by exactly one instruction, having consumed the opcode's minimum gas
-                counter > 0 && !ends_now(&self.watchdog.after_op(), self.watchdog.op_result(), self.watchdog.last_op())
-                    ==> goes_on_with_gas(&self.watchdog.after_op(), gas_after(&self.watchdog.after_op(), self.watchdog.op_result(), self.watchdog.last_op()), self),      //@ob C03.loop.execute.iter.otherwise_goes_on_and_ok_consumes_min_gas
-                // C06: whichever it is, no state is lost
-                counter > 0 ==> retired(&self.watchdog.after_op(), self)
-                    || goes_on_with_gas(&self.watchdog.after_op(), gas_after(&self.watchdog.after_op(), self.watchdog.op_result(), self.watchdog.last_op()), self),      //@ob C06.loop.execute.iter.ended_thread_state_is_stored_or_thread_goes_on
+                // C08 / C03 / C06: the current thread ENDS - is retired, its state stored - when the opcode failed (in EVERY mode) or halted
+                // the path, when it runs off the end of the code or into the visit limit, or when it is out of gas (`ends_now`) ...
+                counter > 0 ==> iter_ends(&self.watchdog.after_op(), self.watchdog.op_result(), self.watchdog.last_op(), self),      //@ob C08.loop.execute.iter.failed_or_halting_opcode_ends_the_thread C03.loop.execute.iter.thread_ends_at_its_limits C06.loop.execute.iter.ended_thread_state_is_stored
+                // ... and for no other reason: otherwise it goes on by exactly one instruction, having consumed the opcode's minimum gas on Ok
+                counter > 0 ==> iter_goes_on(&self.watchdog.after_op(), self.watchdog.op_result(), self.watchdog.last_op(), self),      //@ob C03.loop.execute.iter.otherwise_goes_on_and_ok_consumes_min_gas
                 // C17: what is recorded - the opcode's error unless tolerated, and gas exhaustion in both modes; nothing else
-                counter > 0 && gas_after(&self.watchdog.after_op(), self.watchdog.op_result(), self.watchdog.last_op()) <= self.config.gas_limit
-                    ==> self.log() == log_after_opcode_result(&self.watchdog.after_op(), self.watchdog.op_result()),      //@ob C17.loop.execute.iter.opcode_error_is_recorded_unless_tolerated
-                counter > 0 && gas_after(&self.watchdog.after_op(), self.watchdog.op_result(), self.watchdog.last_op()) > self.config.gas_limit
-                    ==> self.log().to_multiset() == log_after_opcode_result(&self.watchdog.after_op(), self.watchdog.op_result()).to_multiset()
-                        .insert(Located { location: self.watchdog.after_op().q()[0].ip(), payload: Error::GasLimitExceeded }),      //@ob C17.loop.execute.iter.gas_exhaustion_is_recorded_in_both_modes
+                counter > 0 ==> iter_records(&self.watchdog.after_op(), self.watchdog.op_result(), self.watchdog.last_op(), self),      //@ob C17.loop.execute.iter.opcode_error_is_recorded_unless_tolerated
+                counter > 0 ==> iter_records_gas_exhaustion(&self.watchdog.after_op(), self.watchdog.op_result(), self.watchdog.last_op(), self),      //@ob C17.loop.execute.iter.gas_exhaustion_is_recorded_in_both_modes
             ensures
                 self.q().len() == 0,      // the loop is left only when no thread is left
 //@proof entry
@@ -848,8 +869,24 @@ match Err(Error::StoppedByWatchdog).locate($1) { Ok(()) => (), Err(e) => return 
             old(self).q().len() > 0 ==> !final(self).current_thread_killed,                                            //@ob C08.loop.advance.kill_flag_reset
             final(self).same_rest(old(self)),
             final(self).wf(),
+            // THE CLAUSES ABOVE COMPOSED WITH WHAT THE MAIN LOOP DOES BETWEEN AN OPCODE AND THIS CALL (proved here, where the context is
+            // small, and used by the loop invariant of `execute`): if the VM is as the loop leaves it once the opcode's result is
+            // dealt with (`ready_to_advance`, in terms of the ghost run history), the iteration ends as the properties say
+            ready_to_advance(&old(self).watchdog.after_op(), old(self).watchdog.op_result(), old(self).watchdog.last_op(), old(self)) ==> {
+                &&& iter_ends(&old(self).watchdog.after_op(), old(self).watchdog.op_result(), old(self).watchdog.last_op(), final(self))
+                &&& iter_goes_on(&old(self).watchdog.after_op(), old(self).watchdog.op_result(), old(self).watchdog.last_op(), final(self))
+                &&& iter_records(&old(self).watchdog.after_op(), old(self).watchdog.op_result(), old(self).watchdog.last_op(), final(self))
+                &&& iter_records_gas_exhaustion(&old(self).watchdog.after_op(), old(self).watchdog.op_result(), old(self).watchdog.last_op(), final(self))
+            },                                                                                                         //@ob C03.loop.advance.composes_with_the_main_loop
 //@proof entry
-        proof { reveal(threads_wf); reveal(threads_gas_within); }
+        broadcast use lemma_update_front_skip;
+        proof {
+            reveal(threads_wf); reveal(threads_gas_within);
+            let a = self.watchdog.after_op();
+            if ready_to_advance(&a, self.watchdog.op_result(), self.watchdog.last_op(), self) {
+                assert(self.q().skip(1) =~= a.q().skip(1));
+            }
+        }
 //@end
 }
 } // verus!
